@@ -172,26 +172,25 @@ func scenariosB(quick bool) ([]ScB, []gosched.Bounds) {
 		add(one2, 2, 2)
 		add(two, 1, 1)
 		add(two, 0, 2)
-		add(conc, 1, 0)
-		add(conc, 0, 1)
-		add(same, 1, 1)
-		add(same, 0, 2)
+		add(conc, 1, 1)
+		add(same, 2, 2)
 		add(sameB2B, 2, 2)
 		add(b2b, 0, 1)
-		add(apart, 0, 1)
+		add(apart, 1, 2)
 		return scs, bs
 	}
 	add(one2, 3, 3)
-	add(conc, 1, 1)
-	add(conc, 0, 2)
+	add(conc, 2, 1)
+	add(conc, 1, 2)
 	add(b2b, 1, 1)
+	add(b2b, 2, 0)
 	add(two, 1, 2)
-	add(same, 2, 2)
-	add(apart, 1, 2)
-	add(sameB2B, 3, 2)
-	add(ScB{Name: "four-polls-two-keys-busy(S1,S2,S1,S2)", Clients: 1, Polls: []string{"S1", "S2", "S1", "S2"}, MaxTry: 2, Timeout: 2 * time.Second}, 0, 1)
-	add(ScB{Name: "two-polls-2-clients(S1,S2)", Clients: 2, Polls: []string{"S1", "S2"}, Sleep: true, MaxTry: 2, Timeout: 3 * time.Second}, 0, 1)
 	add(two, 2, 1)
+	add(same, 3, 3)
+	add(sameB2B, 3, 3)
+	add(apart, 2, 2)
+	add(ScB{Name: "four-polls-two-keys-busy(S1,S2,S1,S2)", Clients: 1, Polls: []string{"S1", "S2", "S1", "S2"}, MaxTry: 2, Timeout: 2 * time.Second}, 1, 1)
+	add(ScB{Name: "two-polls-2-clients(S1,S2)", Clients: 2, Polls: []string{"S1", "S2"}, Sleep: true, MaxTry: 2, Timeout: 3 * time.Second}, 1, 1)
 	return scs, bs
 }
 
@@ -207,9 +206,7 @@ var requiredB = []string{
 	"b:tx-never-found", "b:tx-out-of-gas", "b:broadcast-out-of-gas", "b:broadcast-error", "b:sim-error", "b:account-error", "b:key-error",
 }
 
-// workersFor: the scheduler shims identify the calling goroutine through runtime.Stack, which holds a
-// global runtime lock; more workers than this only contend on it (measured: part b is fastest with 2
-// workers, part a with 4-6).  Overridable through the named environment variable.
+// workersFor: number of explorer workers (overridable through the named environment variable).
 func workersFor(env string, def int) int {
 	if v, err := strconv.Atoi(os.Getenv(env)); err == nil && v > 0 {
 		return v
@@ -235,7 +232,7 @@ func execA(r *engine.Run, quick bool, deadline time.Time) {
 		return
 	}
 	t0 := time.Now()
-	res := searchA(cfgs, deadline, workersFor("VERIF_C20_WORKERS_A", 5))
+	res := searchA(cfgs, deadline, workersFor("VERIF_C20_WORKERS_A", 16))
 	offsets := map[string]bool{}
 	for ci, c := range cfgs {
 		x := res[ci]
@@ -330,7 +327,7 @@ func execB(r *engine.Run, quick bool, deadline time.Time) {
 		}
 		b := bounds[i]
 		b.Deadline = deadline
-		b.Workers = workersFor("VERIF_C20_WORKERS_B", 2)
+		b.Workers = workersFor("VERIF_C20_WORKERS_B", 16)
 		t0 := time.Now()
 		st := gosched.Explore(scenarioB(sc), b)
 		r.States += int(st.Executions)
@@ -400,8 +397,8 @@ func init() {
 			if os.Getenv("VERIF_C20_ONLY") != "" {
 				r.Required = nil
 			}
-			dlA := r.Deadline(8*time.Minute, 22*time.Minute)
-			dlB := r.Deadline(16*time.Minute, 55*time.Minute)
+			dlA := r.Deadline(6*time.Minute, 25*time.Minute)
+			dlB := r.Deadline(12*time.Minute, 55*time.Minute)
 			if part != "b" {
 				execA(r, quick, dlA)
 			}
